@@ -596,6 +596,116 @@ PROPS["C20"] = {
     ],
 }
 
+# ---- C08 / C17 / C07 after the shape-invariant follow-up of unit cfgbuild -----------------------------------------
+PROPS["C08"]["units"] = ["cfgbuild", "cfgbuild_rc367"]
+PROPS["C08"]["level_note"] = PROPS["C08"]["level_note"] + (
+    " Follow-up: the SHAPE INVARIANT cfg_graph_shape (every edge connects the node kinds of its label: Block BlkStart->BlkEnd of the same pair, Jump "
+    "BlkEnd->BlkStart with a CBranch as untaken jump, CallCombine BlkEnd->CallSource, Call CallSource->BlkStart, ExternCallStub BlkEnd->BlkStart, CrCallStub "
+    "CallSource->CallReturn, CrReturnStub BlkEnd->CallReturn, ReturnCombine CallReturn->BlkStart; call / return blocks of artificial nodes have their jump) is a "
+    "conjunct of the builder invariant and exported by get_program_cfg; units cfgbuild_rc367, fwd_fixpoint and bwd_fixpoint derive from it the graph hypotheses "
+    "of cwe_367::check_cwe and of the fixpoint adapters. W3 was strengthened for that: of two jumps of a block the first is a conditional branch (graph.rs module "
+    "documentation; what the P-Code extractor emits).")
+PROPS["C17"]["units"] = ["reachcheck", "reachcheck_243", "reachcheck_367", "cfgbuild_rc367"]
+PROPS["C17"]["level_note"] = PROPS["C17"]["level_note"].replace(
+    "cwe_367::check_cwe keeps one graph precondition (rc367_pre: the target of every reporting edge is a BlkStart node -- a fact about the CFG builder, C08; its `_ => panic!` arm is a proved obligation under it).",
+    "cwe_367::check_cwe has one graph precondition (rc367_pre: the target of every reporting edge is a BlkStart node; its `_ => panic!` arm is a proved obligation "
+    "under it), which unit cfgbuild_rc367 PROVES for every graph returned by get_program_cfg on a well-formed program (from the builder's shape invariant; the "
+    "composition includes the reachcheck definition files verbatim, check_cwe itself is not called in that Verus run).")
+PROPS["C17"]["assumptions"] = [a for a in PROPS["C17"]["assumptions"] if not a.startswith("HYPOTHESIS rc367_pre")] + [
+    "rc367_pre (cwe_367): proved for graphs returned by get_program_cfg under cfg_prog_wf (unit cfgbuild_rc367); a precondition for arbitrary graphs"]
+PROPS["C07"]["not_covered"] = [n for n in PROPS["C07"]["not_covered"] if not n.startswith("that CFGs built by get_program_cfg satisfy")] + [
+    "start values of the analyses have the NodeValue variant of their node; petgraph `reverse` (backward adapter: relative to bf_is_reversal)"]
+PROPS["C07"]["level_note"] = PROPS["C07"]["level_note"].replace(
+    "Not decided: that graphs built by get_program_cfg satisfy the edge-kind preconditions (sampled by the twins c07b.adapter / c07b.backward on built CFGs);",
+    "The edge-kind preconditions are proved for graphs returned by get_program_cfg (forward: verified client on top of unit cfgbuild's shape invariant; backward: "
+    "lemma relative to the meaning of petgraph's reverse) under cfg_prog_wf incl. 'of two jumps the first is a CBranch'. Not decided:")
+
+# ---- C22 (unit modsel, round 3) -------------------------------------------------------------------------------------
+TWINS["modsel"] = [("get_modules", "c22.modules"), ("lemma_ms_lkm", "c22.modules"), ("lemma_ms_list19", "c22.modules"), ("filter_modules_for_partial_run", "c22.split")]
+PROPS["C22"] = {
+    "units": ["modsel"],
+    "level_text": (
+        "get_modules (lib.rs) with the 19 CWE_MODULE statics and 3 VERSION constants, MODULES_LKM (checkers.rs) and filter_modules_for_partial_run (main.rs of the "
+        "caller crate) are extracted verbatim from /repo on each run and verified by Verus: the module list names every known check exactly once (its names are "
+        "pairwise different and are exactly one per `pub mod cwe_N` of checkers.rs plus \"Memory\") and exactly one entry is CWE78; for EVERY module list and EVERY "
+        "--partial string the filter yields exactly the modules whose name is a comma-separated piece of the string, each once, ignores empty pieces, and "
+        "panics exactly when a non-empty piece names no module; every MODULES_LKM entry occurs once and, except the dangling CWE457, names exactly one module."),
+    "level_note": (
+        "PARTIAL decision of the property, said plainly. Decided: 'a partial run executes exactly the listed checks' (the filter function, for every input) and the "
+        "list / constant side of the other clauses ('names every known check once'; the default run's excluded name CWE78 exists exactly once; the kernel-module "
+        "subset is a set of existing names but for CWE457). NOT decided: the default filter `name != \"CWE78\"`, the LKM `retain` and the --module-versions loop are "
+        "INLINE statements of run_with_ghidra (file IO, Ghidra subprocess): the extractor pulls whole functions, and no look-alike was typed -- a mutant "
+        "\"CWE78\" -> \"CWE87\" there still verifies; which `run` function a module carries and that only selected modules are called (function pointers are "
+        "outside Verus: two statics with swapped names still verify); completeness of get_modules against the source tree; the order of a partial run (HashSet "
+        "iteration order: observation for C23). No bounded stand-in exists for the filter (private fn of a binary crate). Observation: MODULES_LKM lists CWE457, "
+        "for which no module exists. Trusted: CweModule restated without its fn-pointer field (R13b drops the field initialiser), shim/modsel.rs (split(c).collect "
+        "into a HashSet = the set of maximal c-free substrings, cross-checked against std by twin c22.split; HashSet into_iter yields each element once; "
+        "Iterator::find through the closure's contract), four R9 substitutions with the closure bodies verbatim, rules R13 / R13b / R14 / R11."),
+    "design_ref": "DESIGN.md section 13 (C22)",
+    "default_twins": ["c22.modules", "c22.split"],
+    "sweep_twins": ["c22.modules", "c22.split"],
+    "not_covered": [
+        "default filter, LKM filter and --module-versions loop (inline statements of run_with_ghidra) and the branch selecting between them",
+        "CweModule::run (function pointer) and the loop that calls the selected modules: 'warnings of a check appear only when that check was selected'",
+        "completeness of get_modules against the source tree; the order of a partial run",
+        "no bounded stand-in for filter_modules_for_partial_run (binary crate)",
+    ],
+    "assumptions": [
+        "CweModule restated without `run`; R13 / R13b (drop-field) / R14 (elided lifetime in a const type) / R11",
+        "shim/modsel.rs: verif_split_collect, verif_hs_into_vec, verif_iter_find, ms_panic_only_if, str::starts_with / contains without postcondition",
+        "R9 substitutions 1-4 of contracts/modsel.vc (closure bodies verbatim)",
+        "64-bit target (usize = u64)",
+    ],
+}
+
+# ---- C09 (unit normalize, round 3) ----------------------------------------------------------------------------------
+TWINS["normalize"] = [("normalize_basic", "c09.basic"), ("remove_duplicate_tids", "c09.basic"), ("remove_references", "c09.basic"), ("retarget_non", "c09.basic"),
+                      ("make_block", "c09.basic"), ("duplicate_blocks", "c09.basic"), ("append_jump", "c09.basic"), ("generate_", "c09.basic"), ("", "c09.basic")]
+PROPS["C09"] = {
+    "units": ["normalize"],
+    "level_text": (
+        "The five passes of Project::normalize_basic -- remove_duplicate_tids, add_artifical_sink, remove_references_to_nonexisting_tids (with find_all_jump_targets, "
+        "retarget_nonexisting_jump_targets_to_artificial_sink, remove_nonexisting_indirect_jump_targets), make_block_to_sub_mapping_unique (with its seven helpers of "
+        "block_duplication_normalization.rs) and retarget_non_returning_calls_to_artificial_sink (with find_non_returning_subs) -- 25 functions in all, are extracted "
+        "verbatim from /repo on each run and verified by Verus, each against a relational postcondition that names the WHOLE change of the program (what is removed, "
+        "what is retargeted to which sink, what is copied with which suffix, and the frame), for every program satisfying the stated input hypotheses; "
+        "normalize_basic is proved to be the chain of the five and panic-free (every panic! / unwrap is a discharged obligation), and a verified client derives from "
+        "the chain: every function whose entry block's tid occurs nowhere else still starts with its original entry block; after the block pass every "
+        "intraprocedural target is a block of the same function (modulo the sink block); every direct jump and return target exists (unknown ones point to the "
+        "artificial sink); calls to non-returning functions return to the caller's artificial sink; all term identifiers are pairwise different after passes 1-3."),
+    "level_note": (
+        "PARTIAL decision, said plainly. NOT decided: uniqueness of identifiers after the block-copying and non-returning passes (it depends on the freshness of "
+        "names built by string concatenation, which is uninterpreted here -- no injectivity is assumed, it would be false); hence the well-formedness preconditions of "
+        "unit cfgbuild are not established and 'building the control flow graph of the result never fails' is not composed with C08; 'every direct call target "
+        "exists' is proved for pass 3 but not threaded through passes 4-5. The bounded twin c09.basic checks ALL clauses incl. get_program_cfg on the result (4007 "
+        "malformed programs) and is the stand-in for these. OPEN FINDING F1 (known_findings.txt, re-run on every check): remove_duplicate_tids deletes the entry "
+        "block of a function when its tid occurred earlier (sub_0 = [blk_0 -> blk_1, blk_1], sub_1 = [blk_1] leaves sub_1 without blocks), contradicting 'every "
+        "function still starts with its original entry block'; the contract states exactly when the entry survives. Input hypotheses (requires of normalize_basic): "
+        "function tids are used by no other term (otherwise pass 1 panics), map key == tid, no artificial-sink names in the input, a tid named by a block is never a "
+        "function / extern tid (otherwise pass 4 panics: replay file seeded/findings/C09-branch-to-function.json). Trusted: shim/normalize.rs (uninterpreted name "
+        "functions for sink / suffixed tids with two axioms, Clone of Term, LogMessage opaque), six @nobody Tid helpers returning those name functions, R9 "
+        "substitutions (values_mut() -> loop over keys with get_mut; guarded / or-pattern arms with &mut bindings split per alternative; iter_mut with continue -> "
+        "index loop; filter_map / any / map collect chains -> explicit loops with the closure bodies verbatim; panic! -> requires-false call), vstd HashMap / HashSet / "
+        "BTreeMap specifications under the key hypotheses of unit cfgbuild."),
+    "design_ref": "DESIGN.md section 13 (C09)",
+    "default_twins": ["c09.basic"],
+    "sweep_twins": ["c09.basic"],
+    "not_covered": [
+        "uniqueness of term identifiers after passes 4 and 5 (freshness of concatenated names); bounded twin c09.basic",
+        "composition with C08: that normalize_basic establishes cfg_prog_wf, i.e. 'building the control flow graph of the result never fails'; bounded twin",
+        "'every direct call target exists' after passes 4-5; the bound of at most two jumps per block; termination of the worklist loop; log messages",
+        "programs outside the input hypotheses (function tid reused by another term, branch to a function tid, pre-existing sink-shaped names)",
+    ],
+    "assumptions": [
+        "HYPOTHESES of normalize_basic: cfg_key_hyp(), nz_sub_tids_alone, nz_keys_are_tids, nz_no_sink_names, nz_namespace",
+        "shim/normalize.rs: uninterpreted nz_sink_sub / nz_sink_blk / nz_is_sink_blk / nz_with / nz_sfx with axiom_nz_sink_blk_is, axiom_nz_sink_names_differ; Clone for Term<T>; LogMessage without specification; nz_panic requires false",
+        "@nobody: Tid::{artificial_sink_sub, artificial_sink_block, is_artificial_sink_block, is_artificial_sink_sub, with_id_suffix}, Term<Sub>::id_suffix",
+        "R9 substitutions listed in contracts/normalize.vc",
+        "everything imported with the IR data model units",
+        "64-bit target (usize = u64)",
+    ],
+}
+
 
 def twin_for(unit, label):
     for frag, twin in TWINS.get(unit, []):
